@@ -14,7 +14,7 @@ TECHNIQUE = ("runtime monitoring under fault injection: (a) a failing expression
 RULE = ("(a) templates: position in {input, vars, action, task input, with.items, with.concurrency, delay, retry.when, "
         "retry.count, retry.delay, when, publish, publish on a transition with several targets beside a fail command, output} x kind in {missing key, wrong type, unknown function, division "
         "by zero, undefined variable (assigned on another path only)} x {YAQL, Jinja; bare, two expressions embedded in "
-        "text, inside a Jinja block statement, beside a Jinja raw block} x point in {start, mid-run, after a "
+        "text, inside a Jinja block statement, beside a Jinja raw block} x (input / vars also with the conductor persisted and restored before its first call) x point in {start, mid-run, after a "
         "join, loop iteration 2, after pause/resume, during rerun, while canceling, on the late answer of a pending action after the workflow was canceled}; (b) failpoints: for generated definitions the healthy "
         "run's evaluator calls are counted and the run is repeated with the k-th call raising, for every k (sampled "
         "above a cap); asserted: no exception leaves an API call, an error entry records the failure (naming the task "
@@ -329,12 +329,17 @@ def templates(job):
             C["templates_rejected_by_inspection"] = C.get("templates_rejected_by_inspection", 0) + 1
             out["sets"].setdefault("rejected", set()).add("%s/%s/%s/%s" % (p, k, l, pt))
             continue
-        for lazy in (0, 50):
+        # workflow-level positions also with the conductor persisted and restored before its first call
+        for lazy in ((0, 50, "precrash") if p in ("input", "vars") else (0, 50)):
+            precrash = lazy == "precrash"
+            lazy = 0 if precrash else lazy
             cm = Containment(None if k == "string_value" else MARK, target=target, task_level=p not in ("input", "vars", "output"),
                              never=("after", "after2") if p == "publish_multi" else ())
             ms = [m for m in workloads.monitors() if m.name != "ledger"] + [cm]
             run = explore.make_run(dict(wf=wf, inputs=inputs, oseed=1, p_fail=0.0), ms, model=None,
-                                   label="%s/%s/%s/%s" % (p, k, l, pt))
+                                   label="%s/%s/%s/%s" % (p, k, l, pt), precrash=precrash)
+            if precrash:
+                C["templates_persisted_before_first_call"] = C.get("templates_persisted_before_first_call", 0) + 1
             drive(run, plan, explore.Policy(pseed=idx, lazy_pct=lazy))
             run.finish()
             relabel(run)
